@@ -551,10 +551,23 @@ func genC19(seed uint64, tier Tier) *Case {
 	g.lateDocs = g.r.Bool(0.4)
 	c.Steps = append(c.Steps, Step{Kind: "start"})
 	nfrac := g.r.Range(2, 5)
+	// a bulk that was retried across a rotation: the same documents sit in two fractions (the merge of the
+	// per-fraction results has to drop the repetitions from the listing and from the histogram; aggregations
+	// are not corrected and not compared then)
+	redeliver := g.r.Bool(0.25)
+	var first Op
 	for i := 0; i < nfrac; i++ {
 		var ops []Op
 		for b := 0; b < g.r.Range(1, 3); b++ {
 			ops = append(ops, g.bulk(g.bulkSize()))
+		}
+		if i == 0 {
+			first = ops[0]
+		} else if redeliver && (i == nfrac-1 || g.r.Bool(0.4)) {
+			redeliver = false
+			c.Oracles.NoAggs = true
+			g.nextBulk++
+			ops = append(ops, Op{Kind: "bulk", Bulk: g.nextBulk, Docs: first.Docs})
 		}
 		c.Steps = append(c.Steps, seqStep(ops...))
 		if i < nfrac-1 || g.r.Bool(0.3) {
